@@ -386,7 +386,7 @@ def run_property(pid, modname, tier, seed, level_note, assumptions, bounds, only
     t0 = time.time()
     mod = importlib.import_module(modname)
     jobs = []
-    budget = float(os.environ.get("VERIF_JOB_DEADLINE_S", 240 if tier == "quick" else 3000))
+    budget = float(os.environ.get("VERIF_JOB_DEADLINE_S", 240 if tier == "quick" else 1200))
     for h in mod.HARNESSES:
         if only and h.name not in only:
             continue
